@@ -11,7 +11,7 @@ func (e *engine) Rule() string {
 	if *prop == "C23" {
 		return "C23: real 3-store / 2-region cluster driven by a random deterministic schedule (campaigns = leader changes, one-store partitions, message drop/dup/out-of-order delivery, heartbeat ticks) with writes, reads and malformed probes sent to leaders, followers and deposed leaders; every admission decision, id draw, apply, completion and read is replayed through the Lean model; non-trivial = at least one request refused by the leader check, one read served, and one write acknowledged before a served read"
 	}
-	return "C22: (a) random op sequences on the real command pipelines of three stores (ids drawn from the per-store counters so that they collide across stores, entries applied in a common log order on every store, timeouts, duplicate ids, chaos entries); (b) the real 3-store / 2-region cluster under a random deterministic schedule (leader changes, partitions, drop/dup/reorder) with concurrent proposals on several stores, replayed event by event through the Lean model, plus prefix-agreement / exactly-once oracles; non-trivial = proposals registered on at least two stores, an entry applied on at least two stores, and at least one waiter handed a result"
+	return "C22: (a) random op sequences on the real command pipelines of three stores (ids drawn from the per-store counters so that they collide across stores, entries applied in a common log order on every store, timeouts, rejected duplicate registrations, id 0, entries nobody waits for; inside ValidRun's domain: accepted registrations always use the counter's id, applied entries with a live id are the proposed ones); (b) the real 3-store / 2-region cluster under a random deterministic schedule (leader changes, partitions, drop/dup/reorder) with concurrent proposals on several stores, replayed event by event through the Lean model, plus prefix-agreement / exactly-once oracles; non-trivial = proposals registered on at least two stores, an entry applied on at least two stores, and at least one waiter handed a result"
 }
 
 func (e *engine) Gen(r *hlib.Rand, tier string) []string {
@@ -43,18 +43,31 @@ func genPipeline(r *hlib.Rand) []string {
 		s := 1 + r.Intn(nStores)
 		switch x := r.Intn(100); {
 		case x < 30: // a proposal: draw an id, register, (mostly) get into the log
+			// Domain of the property (ValidRun): every accepted registration uses the id the
+			// store's counter just handed out - the only way ids are chosen behind the kv
+			// service, whose buildHeader never sets Header.RequestId.  Ids picked by an
+			// in-process caller are exercised only where they cannot be accepted twice:
+			// a second registration under an id that is certainly still waiting (rejected as
+			// duplicate) and the id 0 (never registered).
 			seq[s]++
 			ops = append(ops, fmt.Sprintf("p.next %d", s))
 			w++
 			tag++
-			id := seq[s]
-			if r.Chance(6) {
-				id = r.Intn(4) // client-chosen / duplicate / zero id
-			}
+			id, ownTag := seq[s], tag
 			ops = append(ops, fmt.Sprintf("p.reg %d %d %d %d", s, id, w, tag))
 			regs = append(regs, reg{s, id, w})
+			if r.Chance(8) {
+				w++
+				tag++
+				dupID := id
+				if r.Chance(30) {
+					dupID = 0
+				}
+				ops = append(ops, fmt.Sprintf("p.reg %d %d %d %d", s, dupID, w, tag))
+				regs = append(regs, reg{s, dupID, w}) // polled too: it has no waiter
+			}
 			if r.Chance(85) {
-				log = append(log, simEntry{1 + r.Intn(nRegions), id, s, tag})
+				log = append(log, simEntry{1 + r.Intn(nRegions), id, s, ownTag})
 			}
 		case x < 36: // ReadCommand draws an id too
 			seq[s]++
@@ -65,8 +78,11 @@ func genPipeline(r *hlib.Rand) []string {
 				pos[s]++
 				ops = append(ops, fmt.Sprintf("p.apply %d %d %d %d %d ok", s, en.region, en.id, en.from, en.tag))
 			} else if r.Chance(20) {
+				// an entry nobody is waiting for: id 0 (pipeline ignores it) or an id no store's
+				// counter reaches in a case (raft only delivers entries that were proposed, so an
+				// entry carrying a live (proposer, id) with a foreign payload is outside the domain)
 				tag++
-				ops = append(ops, fmt.Sprintf("p.apply %d %d %d %d %d ok", s, 1+r.Intn(nRegions), r.Intn(5), 1+r.Intn(nStores), tag))
+				ops = append(ops, fmt.Sprintf("p.apply %d %d %d %d %d ok", s, 1+r.Intn(nRegions), hlib.Pick(r, []int{0, 900, 901}), 1+r.Intn(nStores), tag))
 			}
 		case x < 88:
 			if len(regs) > 0 {
